@@ -1,5 +1,5 @@
 (* C06 — Wrapped and sealed keys are tamper-evident and bound to header, key and password. *)
-From PV Require Import Bytes Result Oracle Local Paserk PaserkProofs PkeProofs.
+From PV Require Import Bytes Result Oracle Local Paserk PaserkProofs PkeProofs PaserkTamper.
 Local Open Scope string_scope.
 Local Open Scope list_scope.
 
@@ -146,6 +146,31 @@ Theorem C06_pke_mac_input_injective : forall (v v' h epk epk' edk edk' : bytes),
   v ++ h ++ epk ++ edk = v' ++ h ++ epk' ++ edk' -> (v, epk, edk) = (v', epk', edk').
 Proof. exact pke_mac_input_injective. Qed.
 
+(* the tag of a PIE blob is the MAC of exactly "kN" || header || nonce || c, and different (version, header,
+   nonce, ciphertext) never give the MAC the same input; the same for PBKW with its salt / parameter / nonce
+   prefix of fixed field widths *)
+Theorem C06_pie_auth_input : forall (P : pie_params) wk header nonce c,
+  pie_auth P wk header nonce c = pie_mac P wk nonce (pie_ver P ++ header ++ nonce ++ c).
+Proof. exact pie_auth_input. Qed.
+Theorem C06_pie_auth_inputs_differ : forall (P P' : pie_params) (h h' n n' c c' : bytes),
+  length (pie_ver P) = 2 -> length (pie_ver P') = 2 -> In h pie_headers -> In h' pie_headers ->
+  length n = 32 -> length n' = 32 ->
+  (pie_ver P, h, n, c) <> (pie_ver P', h', n', c') ->
+  pie_ver P ++ h ++ n ++ c <> pie_ver P' ++ h' ++ n' ++ c'.
+Proof. exact pie_auth_inputs_differ. Qed.
+Theorem C06_pbkw_mac_input_injective : forall (v v' h h' p p' c c' : bytes),
+  length v = 2 -> length v' = 2 -> In h pw_headers -> In h' pw_headers -> length p = length p' ->
+  v ++ h ++ p ++ c = v' ++ h' ++ p' ++ c' -> (v, h, p, c) = (v', h', p', c').
+Proof. exact pw_input_injective. Qed.
+Theorem C06_pbkw_prefix_injective : forall (P : pw_params) (s s' q q' n n' : bytes),
+  length s = pw_salt_len P -> length s' = pw_salt_len P -> length q = pw_par_len P -> length q' = pw_par_len P ->
+  s ++ q ++ n = s' ++ q' ++ n' -> (s, q, n) = (s', q', n').
+Proof. exact pw_prefix_injective. Qed.
+
+Print Assumptions C06_pie_auth_input.
+Print Assumptions C06_pie_auth_inputs_differ.
+Print Assumptions C06_pbkw_mac_input_injective.
+Print Assumptions C06_pbkw_prefix_injective.
 Print Assumptions C06_pie_accept_iff.
 Print Assumptions C06_pie_short.
 Print Assumptions C06_pie_tag_tamper.
